@@ -69,7 +69,9 @@ Inductive mkind :=
 | MCachedProp.  (* @cached_property (Python) *)
 Record member := { m_kind : mkind; m_name : string }.
 
-Inductive ckind := CPlain | CExport | CExportDefault | CAbstract | CExportAbstract.
+(* CExprNamed: a named class EXPRESSION bound by a declaration or assignment (`const X = class Name {`, `module.exports = class Name {`);
+   its line / column are those of its `class` keyword *)
+Inductive ckind := CPlain | CExport | CExportDefault | CAbstract | CExportAbstract | CExprNamed.
 
 (* a class of a Python / TypeScript / JavaScript file as the parser reports it: name, 1-based line and
    0-based column of its `class` (`abstract class`) keyword, number of decorator lines that precede the
